@@ -424,6 +424,7 @@ func checkC18(c DialCell, o *Obs) error {
 			bsni, psni            string
 			errs                  []string
 		}{log.ConnectReqs, log.SocksReqs, log.UpgradeReqs, log.BytesAfterRefusal, log.ConnectTarget, strings.Join(log.ProxyAuth, "|"), log.SocksTarget, log.SocksUser, log.SocksPass, log.SocksAuthUsed, log.BackendTLSDone, log.UpgradeInsideTLS, log.BackendSNI, log.ProxySNI, append([]string(nil), log.Errors...)}
+		upTarget := log.UpgradeTarget
 		log.mu.Unlock()
 
 		target := withDefaultPort(host, map[bool]string{false: "80", true: "443"}[c.Secure])
@@ -521,6 +522,11 @@ func checkC18(c DialCell, o *Obs) error {
 		}
 		if err != nil {
 			return fmt.Errorf("dial %d to %s://%s via proxy %q (cert %s) failed: %v (peer: %v)", hi, scheme, host, c.Proxy, c.Cert, err, lg.errs)
+		}
+		if lg.ur == 1 && upTarget != "/path?q=1" {
+			// through a tunnel (or directly) the backend is an origin server: the
+			// request-target is path and query, never the absolute form a proxy gets
+			return fmt.Errorf("dial %d via proxy %q: the backend's upgrade request has request-target %q, want \"/path?q=1\"", hi, c.Proxy, upTarget)
 		}
 		if lg.ur != 1 {
 			return fmt.Errorf("dial %d: backend received %d upgrade requests", hi, lg.ur)
